@@ -41,6 +41,11 @@ func verifOutcomeOK(l *recListener, rt ResponseType) bool {
 	return l.total() == 1 && (rt == ResponseTypeSuccess) == (l.success == 1) && (rt == ResponseTypeIgnore) == (l.ignore == 1) && (rt == ResponseTypeDropped) == (l.dropped == 1)
 }
 
+// verifRotate returns opts rotated left by k.
+func verifRotate(opts []InterceptorOption, k int) []InterceptorOption {
+	return append(append([]InterceptorOption{}, opts[k:]...), opts[:k]...)
+}
+
 var verifCodes = []codes.Code{codes.ResourceExhausted, codes.Unavailable, codes.Aborted}
 
 // VerifC14_UnaryServer: the unary server interceptor with a configured limiter: the handler runs iff
@@ -56,7 +61,7 @@ func VerifC14_UnaryServer() {
 	customExceeded := verif.Bool("customExceededClassifier")
 	rt := ResponseType(verif.Choice("classified", 3))
 	code := verifCodes[verif.Choice("code", len(verifCodes))]
-	opts := []InterceptorOption{WithName("n"), WithLimiter(lim)}
+	opts := []InterceptorOption{WithName("n"), WithLimiter(lim), WithTags([]string{"k", "v"})}
 	if customClassifier {
 		opts = append(opts, WithServerResponseTypeClassifier(func(ctx context.Context, req interface{}, info *golangGrpc.UnaryServerInfo, resp interface{}, err error) ResponseType {
 			return rt
@@ -67,6 +72,8 @@ func VerifC14_UnaryServer() {
 			return "busy", code, errors.New("busy")
 		}))
 	}
+	// options are order-independent: every rotation of the list (a stated bound on the n! orders)
+	opts = verifRotate(opts, verif.Choice("rotation", len(opts)))
 	ic := UnaryServerInterceptor(opts...)
 	handlerCalls := 0
 	herr := errors.New("handler failed")
@@ -113,12 +120,13 @@ func VerifC14_UnaryClient() {
 	invErrNil := verif.Bool("invokerErrNil")
 	customClassifier := verif.Bool("customResponseClassifier")
 	rt := ResponseType(verif.Choice("classified", 3))
-	opts := []InterceptorOption{WithLimiter(lim)}
+	opts := []InterceptorOption{WithLimiter(lim), WithName("c"), WithTags([]string{"k", "v"})}
 	if customClassifier {
 		opts = append(opts, WithClientResponseTypeClassifier(func(ctx context.Context, method string, req, reply interface{}, err error) ResponseType {
 			return rt
 		}))
 	}
+	opts = verifRotate(opts, verif.Choice("rotation", len(opts)))
 	ic := UnaryClientInterceptor(opts...)
 	calls := 0
 	ierr := errors.New("invoke failed")
@@ -188,6 +196,9 @@ func VerifC14_Stream() {
 			WithStreamSendLimitExceededResponseClassifier(func(ctx context.Context, method string, req interface{}, l core.Limiter) (interface{}, codes.Code, error) {
 				return nil, codes.Aborted, errors.New("send busy")
 			}))
+	}
+	if k := verif.Choice("rotation", verif.Tiered(3, len(opts))); k > 0 {
+		opts = append(append([]StreamInterceptorOption{}, opts[k:]...), opts[:k]...)
 	}
 	ic := StreamServerInterceptor(opts...)
 	ss := &recStream{}
